@@ -723,3 +723,32 @@ def rule_t2(P, E, M):
                                           f"{fn} fills the count field {rv['adt'].split('::')[-1]}.{name} from the FEA override tables (Be.extra_fea_tables) instead of from the data it writes: the header count and the array length can disagree (fea-rs leaves such fields at their default)",
                                           P.site_loc(fn, st["l"])))
     return findings, obl, samples, {"count_fields_checked": n}
+
+
+# ---------------------------------------------------------------------------------------------- L2 container loaders (C20)
+def rule_l2(P):
+    """A .glyphs file, the same text in memory and a .glyphspackage must yield the same RawFont.  Structural necessary condition:
+    the code that only the package route executes assembles the raw font and does not *interpret* its content - it never
+    consults custom parameters (those are interpreted once, on the common RawFont -> Font path)."""
+    findings, obl, samples = [], [], []
+    pk = [k for k, b in P.bodies.items() if k.endswith("::load_package") and "glyphs_reader::font::RawFont" in (b.get("impl_self") or "")]
+    ls = [k for k, b in P.bodies.items() if k.endswith("::load_from_string") and (b.get("impl_self") or "") == "glyphs_reader::font::RawFont"]
+    if len(pk) != 1 or len(ls) != 1:
+        raise E5Error(f"RawFont::load_package / load_from_string not found: {pk} {ls}")
+    only_pkg = {f for f in P.reachable([pk[0]]) if f in P.bodies and f.startswith("glyphs_reader::")} - \
+               {f for f in P.reachable([ls[0]]) if f in P.bodies}
+    interp = {k for k, b in P.bodies.items() if "CustomParameters" in (b.get("impl_self") or "") and b.get("dk") == "AssocFn"
+              and not k.endswith(("::parse", "::fmt", "::clone", "::default", "::eq"))}
+    if len(interp) < 5:
+        raise E5Error("custom-parameter accessors not found")
+    bad = []
+    for f in sorted(only_pkg):
+        for s in P.iter_sites(f):
+            if s["kind"] in ("call", "fnref") and any(t in interp for t in s["targets"]):
+                bad.append((f, s["line"], [t for t in s["targets"] if t in interp][0]))
+    ok = not bad
+    obl.append({"rule": "L2", "inst": f"{len(only_pkg)} package-only loader functions never consult custom parameters ({len(interp)} accessors)", "ok": ok})
+    samples.append({"rule": "L2", "package_only_functions": sorted(only_pkg)[:6], "accessors": len(interp)})
+    for f, line, t in bad:
+        findings.append(F("L2", f"L2|{f}|{t.rsplit('::', 1)[1]}", f"{f} (executed only when the source is a .glyphspackage) consults a custom parameter ({t}): the package route interprets font content that the .glyphs-file and in-memory routes do not, so the same design can compile to different fonts depending on the container", P.site_loc(f, line)))
+    return findings, obl, samples, {"package_only_functions": len(only_pkg), "custom_parameter_accessors": len(interp)}
